@@ -75,6 +75,12 @@ BATTERY = [
      ["s", [1, 2], 3, 9.5], None),
     ("b22", {"additionalItems": {"maximum": 1}, "contains": {"multipleOf": 2}, "uniqueItems": True},
      [[3, 3], [2, 5]], None),
+    # an id NEXT TO a $ref changes the base that very $ref is resolved against (drafts 3-7): with the id the
+    # reference lands in the root document, without it it leaves for a document nobody has
+    ("b23", {"id": "http://ida.test/a/root.json", "$id": "http://idb.test/a/root.json",
+             "properties": {"a": {"id": "http://ida.test/a/b/", "$id": "http://idb.test/a/b/",
+                                  "$ref": "../root.json#/definitions/s"}},
+             "definitions": {"s": {"type": "string"}}}, [{"a": 1}, {"a": "x"}], None),
 ]
 OVERRIDABLE = ["minimum", "maxLength", "enum", "x-marker", "x-also", "required", "items",
                "maximum", "minLength", "pattern", "minItems", "maxItems", "uniqueItems", "properties",
@@ -95,7 +101,7 @@ def _contains_key(node, keys):
 def generate(rng, tier="quick"):
     n = rng.randint(4, 20)
     kinds = ["tc_redefine", "tc_redefine_many", "tc_remove", "tc_remove_unknown", "extend_noop", "extend_kw",
-             "extend_tc", "extend_kw_tc", "create_clone", "create_plain", "create_partial", "create_version", "create_default_types",
+             "extend_tc", "extend_kw_tc", "create_clone", "create_plain", "create_partial", "subclass_plain", "create_version", "create_default_types",
              "create_illegal", "extend_illegal", "instance_types", "fc_new", "fc_subset", "fc_subset_unknown",
              "fc_checks", "cls_checks", "suspend", "resume", "set_meta", "mutate_meta_top", "tc_redefine_same_dict", "extend_version", "instance_future_ref", "instance_future_ref"]
     enabled = [k for k in kinds if rng.random() < 0.75] or kinds
@@ -435,6 +441,15 @@ def execute(scn):
                 parent = pick("class", op["a"])
                 new = V.create(meta_schema={"$id": "urn:dsim:meta:%d" % step}, validators=parent["obj"].VALIDATORS)
                 add("class", new, step, k)
+                ok = True
+            elif k == "subclass_plain":
+                # the other way to derive: a plain `class Mine(DraftNValidator): pass` (here with a class attribute of
+                # its own) - behaves like its parent and disturbs nobody
+                parent = pick("class", op["a"])
+                new = type("DsimSub%d" % step, (parent["obj"],), {"dsim_note": step})
+                # (not kept for later re-probing: by Python's own rules it follows every later change of its parent)
+                compare_with_parent(step, k, parent, probe_class(new), [], False)
+                probe_count("plain_subclass_derived")
                 ok = True
             elif k == "create_partial":
                 parent = pick("class", op["a"])
